@@ -7,6 +7,7 @@ import (
 	"path/filepath"
 	"sort"
 	"strings"
+	"sync"
 	"testing"
 	"time"
 
@@ -23,9 +24,11 @@ const watchdog = 20 * time.Second
 
 // Op is one step of the history.
 type Op struct {
-	Op  string `json:"op"` // push, tag, untag, delete, gc, reopen
+	Op  string `json:"op"` // push, tag, untag, delete, gc, reopen, cpush
 	N   int    `json:"n,omitempty"`
 	Ref string `json:"ref,omitempty"`
+	// cpush: these nodes are pushed at the same moment, one goroutine each
+	Ns []int `json:"ns,omitempty"`
 }
 
 // Stray is a file dropped directly under blobs/.
@@ -119,6 +122,59 @@ func genCaseOpt(t *rapid.T, alias bool) Case {
 		}
 		c.Ops = append(c.Ops, op)
 	}
+	return c
+}
+
+// genWide: 3-8 wide manifests over one pool of blobs pushed at the same moment, then
+// all but some of them deleted (auto-GC) or garbage-collected: what the survivors
+// link to must stay.
+func genWide(t *rapid.T) Case {
+	c := Case{AutoGC: rapid.IntRange(0, 3).Draw(t, "autoGC") != 0}
+	m := rapid.IntRange(8, 14).Draw(t, "poolSize")
+	if rapid.IntRange(0, 2).Draw(t, "veryWide") == 0 {
+		m = rapid.IntRange(64, 72).Draw(t, "poolSizeXL")
+	}
+	for i := 0; i < m+1; i++ {
+		c.Specs = append(c.Specs, gen.NodeSpec{Kind: gen.KBlob, Seed: 500 + i, Size: 2 + i%17, MT: "application/octet-stream"})
+	}
+	p := rapid.IntRange(3, 8).Draw(t, "wideParents")
+	var parents, blobs []int
+	for i := 0; i < m+1; i++ {
+		blobs = append(blobs, i)
+	}
+	for i := 0; i < p; i++ {
+		w := m
+		if rapid.Bool().Draw(t, "partial") {
+			w = rapid.IntRange(m/2+1, m).Draw(t, "width")
+		}
+		var layers []gen.Ref
+		for _, b := range rapid.Permutation(blobs[:m]).Draw(t, "layers")[:w] {
+			layers = append(layers, gen.Ref{N: b})
+		}
+		c.Specs = append(c.Specs, gen.NodeSpec{Kind: gen.KImage, Config: &gen.Ref{N: m}, Layers: layers})
+		parents = append(parents, len(c.Specs)-1)
+	}
+	if rapid.Bool().Draw(t, "childrenFirst") {
+		c.Ops = append(c.Ops, Op{Op: "cpush", Ns: blobs})
+	}
+	c.Ops = append(c.Ops, Op{Op: "cpush", Ns: parents})
+	if !rapid.Bool().Draw(t, "childrenFirstAgain") {
+		c.Ops = append(c.Ops, Op{Op: "cpush", Ns: blobs})
+	}
+	keep := rapid.IntRange(0, p-1).Draw(t, "keep")
+	if rapid.Bool().Draw(t, "tagKept") {
+		c.Ops = append(c.Ops, Op{Op: "tag", N: parents[keep], Ref: "latest"})
+	}
+	for i, pr := range rapid.Permutation(parents).Draw(t, "delOrder") {
+		if pr == parents[keep] {
+			continue
+		}
+		c.Ops = append(c.Ops, Op{Op: "delete", N: pr})
+		if i%3 == 2 && rapid.Bool().Draw(t, "gcBetween") {
+			c.Ops = append(c.Ops, Op{Op: "gc"})
+		}
+	}
+	c.Ops = append(c.Ops, Op{Op: rapid.SampledFrom([]string{"gc", "reopen", "gc"}).Draw(t, "last")})
 	return c
 }
 
@@ -279,6 +335,32 @@ func runCase(c Case) (res vt.Result, fail *vt.Fail) {
 		op.N = d.Nodes[d.Nodes[op.N].Canon].DCanon
 		when := fmt.Sprintf("after step %d (%s n=%d ref=%q)", i, op.Op, op.N, op.Ref)
 		switch op.Op {
+		case "cpush":
+			var wg sync.WaitGroup
+			start := make(chan struct{})
+			errs := make([]error, len(op.Ns))
+			for i, id := range op.Ns {
+				if m.Has(id) {
+					continue
+				}
+				wg.Add(1)
+				go func(i, id int) {
+					defer wg.Done()
+					<-start
+					errs[i] = gen.PushNode(ctx, s, d.Nodes[id])
+				}(i, id)
+			}
+			close(start)
+			wg.Wait()
+			for i, id := range op.Ns {
+				if errs[i] != nil {
+					return res, vt.Failf("C09/push-failed", "%s: concurrent push of node %d: %v", when, id, errs[i])
+				}
+				if !m.Has(id) {
+					m.Push(id)
+				}
+			}
+			classes["concurrent-push"] = true
 		case "push":
 			if m.Has(op.N) {
 				continue
@@ -492,6 +574,7 @@ func TestMain(m *testing.M) {
 	vt.Main(m, "C09",
 		vt.NewLeg("main", 2500, 6000, 16, genCase, runCase),
 		vt.NewLeg("alias", 1200, 4000, 8, genAlias, runCase),
+		vt.NewLeg("wide", 300, 1200, 4, genWide, runCase),
 	)
 }
 
